@@ -216,6 +216,22 @@ def check_case(ctx, dec, enc, msg, origin, name=None, decc=None, Dtab=None):
                             'ops[%s]' % opsig(msg.ids), spec, expected=msg.bytes.hex(), observed=jb.hex())
         else:
             ctx.count('single_encode_disagrees')
+        # a subset given with one value too many: whatever the encoder does with it alone (refuse, or ignore the surplus),
+        # it does the same wherever the subset stands among others
+        if ok_single and n >= 2:
+            fj = R.flat_json(msg)
+            outcomes = {}
+            for pos in (0, n - 1):
+                fj2 = json.loads(json.dumps(fj))
+                fj2[-2][-1][pos] = list(fj2[-2][-1][pos]) + [0]
+                try:
+                    outcomes[pos] = ('ok', enc.process(json.dumps(fj2)).serialized_bytes == msg.bytes)
+                except Exception as e:
+                    outcomes[pos] = ('refused', type(e).__name__)
+            ctx.count('surplus_value_cases')
+            if outcomes[0] != outcomes[n - 1]:
+                ctx.violate('surplus-values-treated-by-position', 'one value too many in the first subset: %r, in the last subset: %r'
+                            % (outcomes[0], outcomes[n - 1]), spec)
     except Exception as e:
         ctx.count('encode_raises')
         ctx.add('encode_raises', type(e).__name__)
